@@ -270,7 +270,11 @@ func (o *OAuth2) End(w http.ResponseWriter, r *http.Request) error {
 				r = r.WithContext(context.WithValue(r.Context(), authboss.CTXKeyValues, RMTrue{}))
 			}
 		case FormValueOAuth2Redir:
-			redirect = v
+			// Guard against Open Redirect, the value came from the client
+			// at the start of the flow.
+			if isSameSiteRedirect(v) {
+				redirect = v
+			}
 		default:
 			query.Set(k, v)
 		}
@@ -293,6 +297,24 @@ func (o *OAuth2) End(w http.ResponseWriter, r *http.Request) error {
 		Success:      o.Localizef(r.Context(), authboss.TxtOAuth2LoginOK, provider),
 	}
 	return o.Authboss.Config.Core.Redirector.Redirect(w, r, ro)
+}
+
+// isSameSiteRedirect reports whether a client supplied redirect target can only
+// lead to a location on this site: an absolute path that does not start with
+// "//" or "/\\" and contains no "://", backslash, space or control character.
+func isSameSiteRedirect(redir string) bool {
+	if len(redir) == 0 || redir[0] != '/' {
+		return false
+	}
+	if len(redir) > 1 && (redir[1] == '/' || redir[1] == '\\') {
+		return false
+	}
+	for i := 0; i < len(redir); i++ {
+		if c := redir[i]; c <= 0x20 || c == 0x7f || c == '\\' {
+			return false
+		}
+	}
+	return !strings.Contains(redir, "://")
 }
 
 // RMTrue is a dummy struct implementing authboss.RememberValuer
